@@ -168,6 +168,10 @@ def build_driver(name, kind="rel", extra=""):
             return exe
         os.makedirs(outdir, exist_ok=True)
         cc, cflags, ldflags = KIND_FLAGS[kind]
+        # a driver may ask for extra compiler/linker flags with a line  "VERIF_FLAGS: <flags>"  in its source
+        m = re.search(r"VERIF_FLAGS:\s*(.*?)\s*(\*/)?\s*$", open(src).read(), re.M)
+        if m:
+            extra = (extra + " " + m.group(1)).strip()
         cmd = ("%s %s -std=gnu11 -w -DSTATIC -I%s/libyang -I%s/src -I%s/src/plugins_exts -I%s/compat -I%s -I%s "
                "%s -o %s.tmp %s %s/libyang.a -lm -lpcre2-8 -lpthread -ldl %s %s"
                % (cc, cflags, bd, REPO, REPO, bd, bd, IMPL, extra, exe, src, bd, ldflags, ""))
@@ -420,10 +424,15 @@ def run_sharded(exe, lines, shards=None, timeout=300, env=None):
 # findings / evidence
 # --------------------------------------------------------------------------------------------
 def load_known():
+    """the committed known-findings list: known_findings.json plus known_findings.d/*.json (one file per slice, so
+    that slices can be worked on independently); never written at run time"""
+    out = []
     p = os.path.join(VERIF, "known_findings.json")
-    if not os.path.exists(p):
-        return []
-    return json.load(open(p))
+    if os.path.exists(p):
+        out += json.load(open(p))
+    for q in sorted(__import__("glob").glob(os.path.join(VERIF, "known_findings.d", "*.json"))):
+        out += json.load(open(q))
+    return out
 
 
 class Report:
